@@ -12,10 +12,10 @@ PROP = dict(
         "correspondence run, not proved for the real instruction set",
         "C31_panic_context_consumed has the premise that instructions set the panic context only together with a recoverable panic "
         "(Verifier::check_contract_in_inputs); read off verification.rs, checked at run time through the Debug image of the instance",
-        "the debugger is one of the fields initialisation does not touch (C31_untouched): with a debugger left in the middle of a session "
-        "(Debugger::last_state = Some) the side condition same_config fails against a new instance and the reported ProgramState differs "
-        "(finding: class debugger-last-state-not-reset-after-abandoned-session; model witness Properties/C32.v C32_stale_last_state_witness); "
-        "final results are unaffected (C32_same holds for any last state)",
+        "the debugger's configuration (active flag, single-stepping, breakpoints) is not reset by initialisation and is part of the agreement "
+        "premise same_config; its last state IS reset since repair 22c6df9 (finding F9: a session abandoned at a breakpoint made the next "
+        "transaction on the instance skip its first debug event) and the premise compares debuggers only up to it; the oracle class "
+        "debugger-last-state-not-reset-after-abandoned-session stays as regression detector (corpus cases run first)",
         "AttemptContinue verifier: its list of missing contract inputs accumulates across transactions on one instance (verifier is not "
         "reset); outside the observables named by the property, not compared",
     ],
@@ -31,8 +31,9 @@ PROP = dict(
         "the heap buffer is an arbitrary type (its dirty contents are whatever a previous use left); accessibility is hp <= address",
     ],
     assumptions=[
-        "same_config v1 v2: storage, debugger, interpreter_params, panic context, ecal state and verifier agree (these are exactly the fields "
-        "init does not touch: C31_untouched); satisfied by a used instance with inactive debugger vs a new one (C31_init_vs_fresh)",
+        "same_config E v1 v2: storage, interpreter_params, panic context, ecal state and verifier agree, debuggers agree up to their last state "
+        "(what init does not reset: C31_untouched); satisfied by a used instance with a debugger configured as new, whatever its last state, "
+        "vs a new one (C31_init_vs_fresh); Example ReuseExamples.same_config_ignores_last_state",
         "step_respects_obs heap_read step (C31_transact); satisfiable by a non-trivial interpreter: Example ReuseExamples.step_respects_obs_satisfiable",
         "sets_pctx_only_with_panic exec (C31_panic_context_consumed); satisfiable: Example ReuseExamples.sets_pctx_only_with_panic_satisfiable",
     ],
@@ -45,19 +46,19 @@ PROP = dict(
           "instance agrees (determinism); panic context None between transactions; predicates (1-3 per transaction; programs comparing whole freshly "
           "exposed heap and stack regions with MEQ and leaving dirt behind) estimated and checked with new memory, one dirty memory reused across "
           "checks, dirty memories from the history, and a recycling VmMemoryPool through check_predicates_async: verdicts and gas identical; "
-          "plus 3 probes of the abandoned-debug-session finding; Coq: the Gallina init_script reproduces the real post-initialisation snapshot from "
+          "corpus first: 3 (+2 random) abandoned-debug-session cases (finding F9, repaired by 22c6df9: breakpoint at script offset 0, session abandoned, "
+          "same transaction again must return the same ProgramState as on a new instance); Coq: the Gallina init_script reproduces the real post-initialisation snapshot from "
           "the new and from the used pre-state; distinct = distinct (tx id, history kinds); non-trivial = non-empty history and >= 2 receipts"),
     level_text=("Machine-checked proof (Coq) over a field-by-field model of the Interpreter instance and of init_script / init_predicate: from ANY two "
                 "instances (arbitrary registers, memory buffers of any size and content, frames, receipts, balances, context, caches) that agree on the "
-                "fields initialisation does not touch, a transaction initialises to indistinguishable states (every field equal; memory equal where "
+                "fields initialisation does not reset (debuggers up to their last state, which it forgets), a transaction initialises to indistinguishable states (every field equal; memory equal where "
                 "accessible) or fails with the same error; predicates initialise identically over any supplied memory (new, reused, pooled); hence, for "
                 "any step function that respects observations, the transaction's result is the same on a new and on a reused instance, for all "
                 "programs (induction on the run). The model's initialisation is compared with the real VM's post-initialisation state on every check"),
     level_note=("Trusted: Coq kernel; hand-written model tied by correspondence testing (testing, not proof); harness. The step function is a parameter: "
                 "that the real handlers respect observations is C23 (memory) plus determinism of the code, a premise here. Storage equality is an input "
-                "(the harness copies the storage). Finding on the unchanged tree: Debugger::last_state survives init_script (abandoned debug session "
-                "swallows the first debug event of the next transaction) — reported by the oracle as class "
-                "debugger-last-state-not-reset-after-abandoned-session."),
+                "(the harness copies the storage). Finding F9 (Debugger::last_state survived init_script) is repaired in /repo by 22c6df9; model and "
+                "harness follow the repaired code, the oracle class debugger-last-state-not-reset-after-abandoned-session remains as regression detector."),
     technique="Coq proof (relational: initialisation from two arbitrary instances, then simulation under an observation-respecting step) + differential fresh/reused runs",
     design_ref="6/C31",
 )
